@@ -161,8 +161,9 @@ func engineConcSearch(ctx *Ctx) {
 			// one platform list - spelt as people spell it, with room to spare behind it - shared by every goroutine: read-only, too
 			pl := make([]string, 0, 8)
 			names := []string{"Linux", " macos ", "Darwin", "OSX", "WINDOWS", "linux ", "Unix", "PowerShell", "macos"}
-			for i, n := 0, 1+r.Intn(3); i < n; i++ {
-				pl = append(pl, names[r.Intn(len(names))])
+			rpl := vlib.NewRand(ctx.Seed, ctx.Shard, fmt.Sprintf("conc-platform-list-%d", rd)) // a stream of its own: the rounds keep their draws
+			for i, n := 0, 1+rpl.Intn(3); i < n; i++ {
+				pl = append(pl, names[rpl.Intn(len(names))])
 			}
 			baseO.Platforms, baseO.AllPlatforms = pl, false
 			ctx.R.Path("rounds-with-shared-platform-list", 1)
